@@ -112,36 +112,36 @@ theorem idx_ok {l : List Nat} {i : Nat} (h : i < l.length) : idx l i = .ok (l.ge
 theorem idx_err {l : List Nat} {i : Nat} (h : l.length ≤ i) : idx l i = .error "index out of bounds" := by
   simp [idx, List.getElem?_eq_none h]
 
-/-! ### inversion panic classes -/
+/-! ### inversion panic classes (pre-fix forms) -/
 
-theorem tzNat_zero : ∀ w, InvMod2k.tzNat w 0 = w
+theorem tzW_zero : ∀ w, tzW w 0 = w
   | 0 => rfl
-  | w + 1 => by simp [InvMod2k.tzNat, tzNat_zero w]; omega
+  | w + 1 => by simp [tzW, tzW_zero w]; omega
 
 /-- for `0 < m < 2^w`: the trailing-zero count is below the width and the odd part is odd -/
-theorem tzNat_spec : ∀ (w m : Nat), 0 < m → m < 2 ^ w →
-    InvMod2k.tzNat w m < w ∧ (m / 2 ^ (InvMod2k.tzNat w m)) % 2 = 1
+theorem tzW_spec : ∀ (w m : Nat), 0 < m → m < 2 ^ w →
+    tzW w m < w ∧ (m / 2 ^ (tzW w m)) % 2 = 1
   | 0, m, h0, h1 => by simp at h1; omega
   | w + 1, m, h0, h1 => by
     by_cases hodd : m % 2 = 1
-    · simp [InvMod2k.tzNat, hodd]
+    · simp [tzW, hodd]
     · have h2 : 0 < m / 2 := by omega
       have h3 : m / 2 < 2 ^ w := by rw [Nat.pow_succ] at h1; omega
-      obtain ⟨ih1, ih2⟩ := tzNat_spec w (m / 2) h2 h3
-      simp only [InvMod2k.tzNat, hodd, if_false]
+      obtain ⟨ih1, ih2⟩ := tzW_spec w (m / 2) h2 h3
+      simp only [tzW, hodd, if_false]
       refine ⟨by omega, ?_⟩
       rw [Nat.add_comm 1, Nat.pow_succ, Nat.mul_comm, ← Nat.div_div_eq_div_mul]
       exact ih2
 
-theorem vtLoop_isNone (w a : Nat) : ∀ (fuel i x b : Nat), i ≤ w →
-    (InvMod2k.vtLoop w a fuel i x b).isNone = decide (w < i + fuel)
-  | 0, i, x, b, h => by simp [InvMod2k.vtLoop]; omega
-  | fuel + 1, i, x, b, h => by
+theorem invMod2kVartimeOldD_isPanic (w : Nat) : ∀ (fuel i : Nat), i ≤ w →
+    isPanic (invMod2kVartimeOldD w fuel i) = decide (w < i + fuel)
+  | 0, i, h => by simp [invMod2kVartimeOldD, isPanic]; omega
+  | fuel + 1, i, h => by
     by_cases hi : i < w
-    · simp only [InvMod2k.vtLoop, InvMod2k.shlVartime, hi, if_true]
-      rw [vtLoop_isNone w a fuel (i + 1) _ _ (by omega)]
+    · simp only [invMod2kVartimeOldD, check, hi, decide_true, if_true, bind, Except.bind]
+      rw [invMod2kVartimeOldD_isPanic w fuel (i + 1) (by omega)]
       congr 1; apply propext; omega
-    · simp only [InvMod2k.vtLoop, InvMod2k.shlVartime, hi, if_false]
-      simp; omega
+    · simp only [invMod2kVartimeOldD, check, hi, decide_false, bind, Except.bind]
+      simp [isPanic]; omega
 
 end CB.Panic
